@@ -342,6 +342,27 @@ func c03Explore(src *choice.Src) *core.Result {
 			res.Faults[[]string{"", "hashreader-error", "hashreader-short", "hashreader-long", "hashreader-error-with-partial-result"}[st2.fault]]++
 		}
 	}
+	// an auditor holds a proof while it obtains the next one: a proof handed out stays what it was
+	if ok && err == nil && eqHashes(tp, want2) && res.Violation == nil && src.Bool(1, 2) {
+		n3 := int64(1) << uint(src.Intn(41))
+		for n3 > t2 {
+			n3 >>= 1
+		}
+		var tp3 tlog.TreeProof
+		var err3 error
+		if c03Guard(res, "ProveTree", func() { tp3, err3 = tlog.ProveTree(t2, n3, &c03Store{tree: tr, mat: mat}) }) {
+			want3 := tr.Proof(n3, t2)
+			switch {
+			case err3 != nil:
+				res.Fail("C03", "prove-complete", "ProveTree failed on an honest store", "ProveTree(%d, %d) after ProveTree(%d, %d): %v", t2, n3, t2, n2, err3)
+			case !eqHashes(tp3, want3):
+				res.Fail("C03", "prove-is-rfc6962-proof", "ProveTree result is not the RFC 6962 consistency proof", "ProveTree(%d, %d) after ProveTree(%d, %d)%s", t2, n3, t2, n2, firstDiff(tp3, want3))
+			case !eqHashes(tp, want2):
+				res.Fail("C03", "proof-stays-valid", "a consistency proof handed out earlier changed when the next proof was produced", "ProveTree(%d, %d) returned the RFC 6962 proof; after ProveTree(%d, %d) the same slice%s", t2, n2, t2, n3, firstDiff(tp, want2))
+			}
+			res.Probes["earlier-proof-rechecked"]++
+		}
+	}
 	// reading must not change the store: a later TreeHash and every stored hash are still the reference's
 	if mat != nil && res.Violation == nil {
 		for i := range mat {
